@@ -81,6 +81,20 @@ class Universe:
         self.order.append(name)
         return obj
 
+    def decl(self, name):
+        """the class as the generator holds it: an ast.ClassDeclaration whose get_type() equals classes[name]
+        (pools handed to the instantiation / search helpers by the generator are lists of declarations + builtins)."""
+        from src.ir import ast
+        cache = self.__dict__.setdefault('_decls', {})
+        d = cache.get(name)
+        if d is None:
+            obj = self.classes[name]
+            sups = [ast.SuperClassInstantiation(s, []) for s in obj.supertypes]
+            d = ast.ClassDeclaration(name, sups, ast.ClassDeclaration.REGULAR, fields=[], functions=[], is_final=False,
+                                     type_parameters=list(self.tparams.get(name, [])))
+            cache[name] = d
+        return d
+
     def env_of(self, key):
         return {p.name: p for p in self.tparams.get(key, [])}
 
